@@ -216,7 +216,16 @@ def minimise(prop, v, budget_s=120):
         return None
     # 1. cut the tail after the failing call
     step = v.get("step", len(ops) - 1)
-    cut = ops[: step + 1]
+    # `step` counts top-level calls; inline destructor-side calls (`@k ...`) are interleaved
+    pos, seen = len(ops), -1
+    for i, o in enumerate(ops):
+        if not o.startswith("@"):
+            seen += 1
+            if seen == step:
+                pos = i + 1
+    while pos < len(ops) and ops[pos].startswith("@"):
+        pos += 1
+    cut = ops[:pos]
     if len(cut) < len(ops) and fails(cut, faults, layouts):
         ops = cut
     # 2. ddmin over calls
